@@ -110,6 +110,10 @@ def main(out):
         if with_enc:
             write(out, prefix + "_enckeymismatch", chain=chain(good, cas), sign=skey, enc="other")
             write(out, prefix + "_encbadsig", chain=chain(good, cas, mk(subj, "enc", iname, ikey, LEAF_ENC, corrupt=True)), sign=skey, enc="enc")
+            # the encryption certificate comes from somewhere else entirely: an issuer name that matches nothing the verifier knows / the right name under another key
+            write(out, prefix + "_encotherissuer", chain=chain(good, cas, mk(subj, "enc", "RogueCA", "evil", LEAF_ENC)), sign=skey, enc="enc")
+            write(out, prefix + "_encselfsigned", chain=chain(good, cas, mk(subj, "enc", subj, "enc", LEAF_ENC)), sign=skey, enc="enc")
+            write(out, prefix + "_encwrongissuerkey", chain=chain(good, cas, mk(subj, "enc", iname, "other", LEAF_ENC)), sign=skey, enc="enc")
             write(out, prefix + "_encexpired", chain=chain(good, cas, mk(subj, "enc", iname, ikey, LEAF_ENC, nb=NOW - 100 * DAY, na=NOW - DAY)), sign=skey, enc="enc")
         # leaf is a CA certificate / wrong key usage
         write(out, prefix + "_leafku", chain=chain(mk(subj, skey, iname, ikey, [ext_ku(["keyCertSign"])]), cas), sign=skey,
